@@ -107,6 +107,7 @@ func runSrcURL(docs string) string {
 func init() {
 	areas["srcurl"] = func(c *Ctx) error {
 		run := func(l string) {
+			c.Note(l)
 			f := strings.Fields(l)
 			if len(f) != 2 || f[0] != "srcurl" {
 				c.Emit(l, "bad-op")
